@@ -55,8 +55,9 @@ type symbol struct {
 	mod     [][]bool // [y][x], true = dark; 1-D: one row
 	// bounding box of the dark modules inside mod (normally the whole matrix)
 	mx0, my0, mx1, my1 int
-	docDefault         int // documented default margin when no hint is given
-	measuredDefault    int // margin implied by the no-hint 0x0 rendering (>= docDefault on correct code)
+	docDefault         int  // documented default margin when no hint is given
+	measuredDefault    int  // margin implied by the no-hint 0x0 rendering (>= docDefault on correct code)
+	noDefault          bool // the no-hint 0x0 rendering could not be explained (reported); no-hint cases are skipped
 	newWriter          func() gozxing.Writer
 	format             gozxing.BarcodeFormat
 	extra              hintMap // hints that select the symbol (Data Matrix shape)
@@ -527,9 +528,7 @@ func qrSymbol(version int) *symbol {
 		}
 	}
 	s.setMatrix(mod)
-	if !s.measureDefault() {
-		return nil
-	}
+	s.noDefault = !s.measureDefault()
 	return s
 }
 
@@ -633,9 +632,7 @@ func onedSymbol(sp onedSpec, ci int) *symbol {
 		chk.Violation(s.key("padding"), fmt.Sprintf("%s %q at 0x0 margin 0 has white columns outside its first/last bar (dark %d..%d of %d)", sp.name, s.Content, s.mx0, s.mx1, s.nx), cs)
 		return nil
 	}
-	if !s.measureDefault() {
-		return nil
-	}
+	s.noDefault = !s.measureDefault()
 	return s
 }
 
@@ -654,7 +651,19 @@ func (j job) String() string {
 	return fmt.Sprintf("%s margin=%s %d requests from %dx%d", j.s.Name, marginText(j.margin), len(j.reqs), j.reqs[0].w, j.reqs[0].h)
 }
 
-func runJobs(name string, jobs []job) {
+func runJobs(name string, all []job) {
+	var jobs []job
+	noted := map[string]bool{}
+	for _, j := range all {
+		if j.margin == defaultMargin && j.s.margins && j.s.noDefault {
+			if !noted[j.s.Name] {
+				noted[j.s.Name] = true
+				chk.Note("no-hint cases of " + j.s.Name + " skipped: its default margin could not be determined (reported as a violation)")
+			}
+			continue
+		}
+		jobs = append(jobs, j)
+	}
 	if len(jobs) == 0 {
 		chk.Incomplete(name, "no symbol could be prepared")
 		return
@@ -905,6 +914,10 @@ func replay() {
 	s := symbolByName(c.Symbol)
 	if s == nil {
 		fmt.Println("replay: symbol", c.Symbol, "cannot be prepared (see violations above)")
+		return
+	}
+	if c.Margin == defaultMargin && s.margins && s.noDefault {
+		fmt.Println("replay: the default margin of", s.Name, "cannot be determined (see violation above)")
 		return
 	}
 	l := chk.NewLocal()
